@@ -1,4 +1,5 @@
 import PlushModel
+import PlushProofs.Lib.PlainRender
 /-!
   C02 — output = literal text verbatim + values of `<%= %>` tags, in source order.
   Evaluator half: theorems about `compileStmts` / `evalStmtBody` (models of compiler.compile and
@@ -60,5 +61,38 @@ theorem C02_comment_value (fuel : Nat) (s : PS) (h : (P.tokAt s s.pos).type = .E
     (P.commentLoop (fuel + 1)).run s = .ok (some (.str (P.tokAt s s.pos) []), s) := by
   simp [P.commentLoop, P.cur, h, bind, StateT.bind, StateT.run, get, getThe, MonadStateOf.get,
     StateT.get, pure, StateT.pure, Except.pure, Except.bind]
+
+/-! ### End to end: lexer ∘ parser ∘ evaluator on tag-free text (proofs in `PlushProofs/Lib/Plain*.lean`) -/
+
+/-- "A TEMPLATE WITHOUT TAGS RENDERS TO ITSELF" — for EVERY byte string that contains no `<%` and no NUL byte
+    (Go's lexer treats NUL as end of input), of any length and any encoding, in any context: the model of
+    `plush.Render` returns exactly the input. Lexer (one HTML token holding the whole text, `replaceAll` finds no
+    escape), parser (one expression statement holding that literal, no syntax error) and evaluator (literal text
+    is appended verbatim) are composed; nothing here is sampled. -/
+theorem C02_tagless_renders_to_itself (t : Bytes) (hp : LX.Plain t.toArray)
+    (data : List (Bytes × Val)) (heap : Array HeapObj) (feeder : List (Bytes × Bytes)) :
+    (renderTop t data heap feeder).1 = .ok t := by
+  cases t with
+  | nil => exact renderTop_empty data heap feeder
+  | cons c r => exact renderTop_plain (c :: r) hp (by simp) data heap feeder
+
+/-- the same with the evaluator state: rendering tag-free text leaves contexts, heap and helper state untouched -/
+theorem C02_tagless_no_side_effect (t : Bytes) (hp : LX.Plain t.toArray) (hne : t ≠ []) (fuel ctx : Nat) (s : ES) :
+    renderIn (fuel + 3) t ctx s = (.ok t, s) := render_plain t hp hne fuel ctx s
+
+/-- the parser's view: tag-free text is ONE statement, the literal, and no error -/
+theorem C02_tagless_parse (t : Bytes) (hp : LX.Plain t.toArray) (hne : t ≠ []) :
+    ∃ ln, parseBytes t = .ok ({ stmts := [.es { type := .HTML, lit := t, line := ln }
+        (some (.html { type := .HTML, lit := t, line := ln } t))] }, #[]) := P.parse_plain t hp hne
+
+/-- non-vacuity: `a<b%>c\` (a lone `<`, a lone `%>`, a trailing backslash) is plain -/
+example : LX.Plain #[97, 60, 98, 37, 62, 99, 92] := by
+  constructor
+  · intro i hi
+    have : i < 7 := hi
+    rcases i with _|_|_|_|_|_|_|i <;> first | decide | omega
+  · intro i
+    rcases i with _|_|_|_|_|_|_|i
+    all_goals first | decide | (intro h; have h1 := h.1; rw [LX.getD_zero_of_ge _ _ (by simp)] at h1; exact absurd h1 (by decide))
 
 end Plush
